@@ -287,6 +287,32 @@ def run(ctx):
             jobs.append((['ehlo', 'mail', 'rcpt_alice', 'data', 'noop'], gen_msg(rng, 0, hopcount=h)))
             jobs.append((['ehlo', 'mail', 'rcpt_alice', 'data', 'noop'], gen_msg(rng, 0, hopcount=3, hop_in_body=h)))
         run_job(ctx, b, 'hop-limit', jobs, None, vocab)
+        # the QUIT-only loop behind a pipelining violation (wait_for_quit): lines the reader rejects (stray CR/LF,
+        # over-long) count as invalid commands like any other; the connection is closed after MAXBADCMDS + 2 of them
+        ql_lines = {'junk': b'FOO bar\r\n', 'stray-lf': b'a\nb\r\n', 'stray-cr': b'a\rb\r\n', 'long': b'x' * 1100 + b'\r\n', 'empty': b'\r\n'}
+        scs, meta = [], []
+        for kind in list(ql_lines) + ['mixed', 'mixed2']:
+            for n in (12, 20):
+                items = session.lockstep([W.VOCAB[x][0] + b'\r\n' for x in ('ehlo', 'mail', 'rcpt_alice')])
+                items += [('S', b'DATA\r\nNOOP\r\n'), ('W',)]
+                for i in range(n):
+                    ln = ql_lines[kind] if kind in ql_lines else ql_lines[rng.choice(['stray-lf', 'long', 'junk'] if kind == 'mixed' else ['stray-lf', 'stray-cr', 'long'])]
+                    items += [('S', ln), ('W',)]
+                items += [('S', b'QUIT\r\n'), ('W',)]
+                sc = W.base_scenario(); sc.items = items
+                scs.append(sc); meta.append('quit-loop %s x%d' % (kind, n))
+        qfails = []
+        for case, r in zip(meta, session.run_sessions(ctx, b, scs)):
+            codes = r.codes()
+            after = codes[codes.index('503') + 1:] if '503' in codes else None
+            if r.fault:
+                qfails.append((case, 'session', 'fails memory-safety-or-crash: ' + r.fault[:150]))
+            elif after is None:
+                qfails.append((case, str(codes), 'fails harness: the pipelining violation was not refused'))
+            elif len(after) > 8 or '221' in after:
+                qfails.append((case, str(codes), 'fails bad-command-limit: %d replies in the QUIT-only loop, the connection was not closed' % len(after)))
+            ctx.count('quit-loop-sessions')
+        vlib.handle_results(ctx, 'quit-loop', 'bad-command clause on the real server transcript (wait_for_quit)', [], qfails)
         # the same limits against the Data model (every mode, every layout of the header)
         specs = limit_specs(ctx)
         for i in range(0, len(specs), 300):
